@@ -17,9 +17,18 @@ import (
 // value when there is exactly one store.
 func vstr(v ssa.Value) string { return vstrd(v, 0, map[ssa.Value]bool{}) }
 
+// vstrSubst, when set, renders the listed values (parameters of a predicate helper that is being inlined) as the
+// given strings (the renderings of the arguments at the call site).
+var vstrSubst map[ssa.Value]string
+
 func vstrd(v ssa.Value, d int, seen map[ssa.Value]bool) string {
 	if v == nil {
 		return "<nil>"
+	}
+	if vstrSubst != nil {
+		if s, ok := vstrSubst[v]; ok {
+			return s
+		}
 	}
 	if d > 10 || seen[v] {
 		return "…"
